@@ -174,6 +174,78 @@ type seq struct {
 	extCallDone map[int]bool        // state_lastBridgeCallNonces
 	extExecTx   map[int]bool        // transfers paid out on the external chain
 	blockJump   int64               // fxcore blocks since the last observation
+	admMode     bool                // the generator produces admissible events only
+	// the ghost exactly as Model/C05Ext.lean defines it (Ext / Ext.next / admissible): compared with the Lean driver's
+	// verdict on every observation line, and used for the theorem-shaped monitor (whole run admissible => event applied)
+	lg leanGhost
+}
+
+type leanGhost struct {
+	height     uint64
+	lastNonce  map[int]int
+	created    map[[2]int]uint64 // (token, nonce) -> timeout
+	calls      map[int]uint64    // nonce -> timeout
+	callDone   map[int]bool
+	allAdm     bool // every observed event so far was admissible
+	admNow     string
+}
+
+// leanStep mirrors `admissible` and `Ext.next`.
+func (q *seq) leanStep(op, res string, pre, post snap) {
+	g := &q.lg
+	w := strings.Fields(op)
+	g.admNow = "-"
+	switch w[0] {
+	case "reqbatch":
+		for _, b := range post.batches[min(len(pre.batches), len(post.batches)):] { // drop |old batches| (sorted by nonce: new one is last)
+			g.created[[2]int{b.token, b.nonce}] = b.timeout
+		}
+	case "bcall":
+		for _, c := range post.calls[min(len(pre.calls), len(post.calls)):] {
+			g.calls[c.nonce] = c.timeout
+		}
+	case "obs":
+		h, _ := strconv.ParseUint(w[1], 10, 64)
+		adm := g.height <= h
+		switch w[2] {
+		case "batch":
+			t, _ := strconv.Atoi(w[3])
+			n, _ := strconv.Atoi(w[4])
+			to, ok := g.created[[2]int{t, n}]
+			adm = adm && ok && g.lastNonce[t] < n && h < to
+			g.lastNonce[t] = n
+		case "result":
+			c, _ := strconv.Atoi(w[3])
+			to, ok := g.calls[c]
+			adm = adm && ok && !g.callDone[c] && h < to
+			g.callDone[c] = true
+		}
+		g.height = h
+		g.admNow = "0"
+		if adm {
+			g.admNow = "1"
+		}
+		if !adm {
+			g.allAdm = false
+		}
+		if g.allAdm {
+			q.out.Count("env:admissible-run-so-far:obs")
+			// the statement of Props.C06.admissible_event_finds_record / Props.C05.observed_execution_settles on the real run
+			if !strings.HasPrefix(res, "ok") {
+				propFilter{q.out}.Violate("C05/C06 admissible event not applied: every observed event of the run satisfies the bridge contract's rules with non-decreasing heights, yet the claim for this one failed (" + res + "): fxcore no longer holds the record the external chain just ran")
+			}
+			if w[2] == "result" {
+				c, _ := strconv.Atoi(w[3])
+				held := false
+				for _, x := range pre.calls {
+					held = held || x.nonce == c
+				}
+				if !held {
+					propFilter{q.out}.Violate("C05/C06 admissible event not applied: the outgoing bridge call of an admissible result event is no longer stored")
+				}
+			}
+		}
+	}
 }
 
 func (q *seq) txOf(tx *types.OutgoingTransferTx) txRec {
@@ -602,6 +674,27 @@ func (q *seq) extMonitor(op, res string, pre, post snap) {
 		}
 	case "obs":
 		h, _ := strconv.ParseUint(w[1], 10, 64)
+		// boundary statistics: observed height against the timeouts of the records in flight
+		bnd := map[string]bool{}
+		cls := func(kind string, timeout uint64) {
+			switch {
+			case h+1 == timeout:
+				bnd["bnd:obs:"+kind+":height=timeout-1"] = true
+			case h == timeout:
+				bnd["bnd:obs:"+kind+":height=timeout"] = true
+			case h == timeout+1:
+				bnd["bnd:obs:"+kind+":height=timeout+1"] = true
+			}
+		}
+		for _, b := range pre.batches {
+			cls("batch", b.timeout)
+		}
+		for _, c := range pre.calls {
+			cls("call", c.timeout)
+		}
+		for k := range bnd {
+			q.out.Count(k)
+		}
 		monotone := h >= q.extMaxH
 		if monotone {
 			q.out.Count("env:obs:height-non-decreasing")
@@ -1086,7 +1179,8 @@ func (q *seq) do(f func() (string, string)) string {
 	pre := q.snapshot()
 	op, res := f()
 	post := q.snapshot()
-	q.out.Emit(op, q.line(res, post)) // first, so that the replay of a violation ends with the op that violates
+	q.leanStep(op, res, pre, post)
+	q.out.Emit(op, q.line(res, post)+" adm="+q.lg.admNow) // first, so that the replay of a violation ends with the op that violates
 	q.extMonitor(op, res, pre, post)
 	q.monitor(op, res, pre, post)
 	w := strings.Fields(op)
@@ -1250,6 +1344,27 @@ func (q *seq) randomOp() {
 		}
 		k := q.rng.Intn(100)
 		ex, rc := q.extExecutable(), q.extRunnableCalls()
+		if q.admMode { // only events the bridge contract can produce, heights never decrease
+			if h < q.lg.height {
+				h = q.lg.height + uint64(q.rng.Intn(3))
+			}
+			switch {
+			case k < 40 && len(ex) > 0:
+				b := ex[q.rng.Intn(len(ex))]
+				if q.rng.Intn(3) == 0 {
+					b = ex[len(ex)-1]
+				}
+				ah := q.admissibleHeight(b.timeout)
+				q.do(func() (string, string) { return q.opObsBatch(ah, b.token, uint64(b.nonce)) })
+			case k < 65 && len(rc) > 0:
+				c := rc[q.rng.Intn(len(rc))]
+				ah := q.admissibleHeight(c.timeout)
+				q.do(func() (string, string) { return q.opObsResult(ah, uint64(c.nonce), q.rng.Intn(2) == 0) })
+			default:
+				q.do(func() (string, string) { return q.opObsOther(h) })
+			}
+			break
+		}
 		switch {
 		case k < 24 && len(ex) > 0: // what the external chain can do: any batch the contract still accepts, any order
 			b := ex[q.rng.Intn(len(ex))]
@@ -1502,7 +1617,8 @@ func runSeq(e *env, out *hx.Out, rng *rand.Rand, idx int, nOps int, script int) 
 	ctx, _ := e.base.CacheContext()
 	q := &seq{e: e, ctx: ctx.WithEventManager(sdk.NewEventManager()), out: out, rng: rng, everPresent: map[int]bool{}, goneTx: map[int]string{}, executedTx: map[int]bool{},
 		refundedTx: map[int]bool{}, obsSuccessCall: map[int]bool{}, refundedCall: map[int]bool{}, executedCall: map[int]bool{},
-		extBatches: map[[2]int]batchRec{}, extLast: make([]int, nTokens), extCalls: map[int]callRec{}, extCallDone: map[int]bool{}, extExecTx: map[int]bool{}}
+		extBatches: map[[2]int]batchRec{}, extLast: make([]int, nTokens), extCalls: map[int]callRec{}, extCallDone: map[int]bool{}, extExecTx: map[int]bool{},
+		lg: leanGhost{lastNonce: map[int]int{}, created: map[[2]int]uint64{}, calls: map[int]uint64{}, callDone: map[int]bool{}, allAdm: true}}
 	p := e.params
 	out.Reset(strconv.Itoa(nActors), strconv.Itoa(nTokens), strconv.Itoa(2*fundEach), fmt.Sprint(p.AverageBlockTime), fmt.Sprint(p.AverageExternalBlockTime),
 		fmt.Sprint(p.ExternalBatchTimeout), fmt.Sprint(p.BridgeCallTimeout), fmt.Sprint(q.ctx.BlockHeight()))
@@ -1516,6 +1632,10 @@ func runSeq(e *env, out *hx.Out, rng *rand.Rand, idx int, nOps int, script int) 
 		return
 	}
 	out.Count("seq:random")
+	q.admMode = rng.Intn(2) == 0
+	if q.admMode {
+		out.Count("seq:random:admissible-events-only")
+	}
 	// small timeouts make the boundary heights reachable: most sequences start by shrinking the periods
 	if rng.Intn(4) > 0 {
 		q.do(func() (string, string) {
@@ -1541,7 +1661,7 @@ func TestC05(t *testing.T) {
 	seed := hx.Seed()
 	rng := rand.New(rand.NewSource(seed))
 	out := hx.NewOut()
-	defer out.Close("correspondence: real eth/bsc crosschain keepers (message servers in a tx cache context; observation through MsgClaim->Attest->TryAttestation with one oracle; ExecuteClaim) vs Lean model, full pool/batch/bridge-call/pending/height/balance state compared after every op; monitors: partition, fresh ids, settled once, executed-never-refunded, refund amounts, cancel only by sender, fee increase exact, pick = fee-descending prefix, cancelled batch restores pool, release only at observed height >= timeout, nothing batched before an observation. non-trivial = distinct final-state shapes")
+	defer out.Close("correspondence: real eth/bsc crosschain keepers (message servers in a tx cache context; observation through MsgClaim->Attest->TryAttestation with one oracle; ExecuteClaim; the keeper's real EndBlocker on every block op) vs Lean model, full state compared after every op: result, id counters, pool IN STORE ITERATION ORDER, batches with transfers, bridge calls, pending results, observed heights, balances of 4 actors x 3 tokens, and the admissibility verdict of the external-chain ghost (Lean `admissible` vs the harness' own); monitors on real state: partition, fresh ids, settled once, executed-never-refunded, refund amounts and recipients, per-token conservation, cancel only by sender, fee increase exact, pick = fee-descending prefix, cancelled batch restores pool, nothing leaves a batch/the store except at an observation, release only at observed height >= timeout, an execution cancels only what it supersedes, nothing batched before an observation, every event the bridge contract can produce finds its record (external-chain ghost from FxBridgeLogic.sol rules). non-trivial = distinct final-state shapes")
 
 	s := hx.NewSuite(t, 1)
 	envs := []*env{setupChain(t, s, "eth", s.App.EthKeeper), setupChain(t, s, "bsc", s.App.BscKeeper)}
@@ -1551,7 +1671,7 @@ func TestC05(t *testing.T) {
 	if os.Getenv("VERIF_FACTS") != "" {
 		out.Stats.Extra["facts"] = os.Getenv("VERIF_FACTS")
 	}
-	n := hx.N(260, 2500)
+	n := hx.N(400, 3000)
 	nOps := 45
 	if hx.Tier() == "thorough" {
 		nOps = 70
